@@ -96,8 +96,7 @@ func errText(err error) string {
 func (c *recCM) names(blocks []types.Block) []string {
 	out := make([]string, len(blocks))
 	for i := range blocks {
-		id := blocks[i].ID()
-		out[i] = c.rec.w.Name(id)
+		out[i] = c.rec.w.NameOfBlock(blocks[i])
 	}
 	return out
 }
